@@ -106,18 +106,9 @@ impl Interpreter {
             OpCodes::OP_15 => state.stack.push_number(15)?,
             OpCodes::OP_16 => state.stack.push_number(16)?,
             OpCodes::OP_NOP => {}
-            OpCodes::OP_IF => {
-                // NOP - handled by ScriptBit interpreter
-            }
-            OpCodes::OP_NOTIF => {
-                // NOP - handled by ScriptBit interpreter
-            }
-            OpCodes::OP_ELSE => {
-                // NOP - handled by ScriptBit interpreter
-            }
-            OpCodes::OP_ENDIF => {
-                // NOP - handled by ScriptBit interpreter
-            }
+            // Conditionals run as ScriptBit::If blocks. One of their opcodes met on its own is an OP_ELSE or OP_ENDIF
+            // without an open conditional, a second OP_ELSE of one conditional, or an OP_IF that was never closed.
+            OpCodes::OP_IF | OpCodes::OP_NOTIF | OpCodes::OP_ELSE | OpCodes::OP_ENDIF => return Err(InterpreterError::InvalidStackOperation("unbalanced conditional")),
             OpCodes::OP_VERIFY => {
                 let predicate = state.stack.pop_bool()?;
                 Interpreter::verify(predicate)?
